@@ -8,6 +8,7 @@ import XzVerif.Lemmas.RangeCoderRename
 import XzVerif.Lemmas.Lzma1ExecFinal
 import XzVerif.Lemmas.Lzma1EncLimit
 import XzVerif.Lemmas.Lzma2ExecTop
+import XzVerif.Lemmas.E2EAccept3
 import XzVerif.Model.Lzma2Enc
 import XzVerif.Model.Lzma2
 import XzVerif.Model.MfPos
@@ -32,6 +33,13 @@ theorem gen_constants :
     Gen.C01.fullDistances = FULL_DISTANCES ∧ Gen.C01.alignBits = ALIGN_BITS ∧ Gen.C01.reps = REPS ∧ Gen.C01.states = STATES ∧
     Gen.C01.litStates = LIT_STATES ∧ Gen.C01.posStatesMax = POS_STATES_MAX ∧ Gen.C01.literalCoderSize = LITERAL_CODER_SIZE ∧
     Gen.C01.lclpMax = LZMA_LCLP_MAX ∧ Gen.C01.pbMax = LZMA_PB_MAX := by decide
+
+/-- The encoder's chunk-closing limits as the source has them today (lzma2_encoder.c: `left = <target> - uncompressed_size`;
+    lzma_encoder.c: `*out_pos + rc_pending(&coder->rc) >= <compLimit>`) are inside the range for which the chunker theorems
+    hold: 273 < target ≤ LZMA2_UNCOMPRESSED_MAX (2^21), 5 < compLimit, compLimit + 60 ≤ LZMA2_CHUNK_MAX (2^16).
+    A retune inside this range only regenerates Gen/C01.lean; a target above 2 MiB or a compressed limit without room for
+    the last symbol breaks this bridge. -/
+theorem gen_chunk_limits : ChunkLimits.Ok { target := Gen.C01.chunkTarget, compLimit := Gen.C01.chunkCompLimit } := by decide
 
 /-- the state-update macros of lzma_common.h, on all 12 states -/
 theorem gen_state_machine :
@@ -190,27 +198,47 @@ theorem lzma2_chunk_roundtrip (p : Props) (hp : PropsOk p) (dictSize : Nat) (hd 
     uncompressed chunk) followed by the EXECUTABLE decoder `Lzma2.lzma2Decode` (Model/Lzma2.lean over Model/Lzma.lean:
     SEQ_CONTROL … SEQ_COPY, dictionary reset through the LZ layer, `dict_write`, `lzma_decode` with known chunk sizes,
     dictionary wrap-around in the middle of chunks, the compressed-size accounting) returns LZMA_STREAM_END, exactly the
-    data, and has consumed exactly the stream — for every trace the chunker accepts, i.e. for EVERY chunking it can
+    data, and has consumed exactly the stream — for ALL chunk-closing limits `lim` (the encoder-side uncompressed target and
+    compressed limit, read from the source on every run: `Gen.C01.chunkTarget`, `Gen.C01.chunkCompLimit`; retuning them
+    regenerates, it does not touch this theorem), for every trace the chunker accepts, i.e. for EVERY chunking it can
     produce (any mix of LZMA and uncompressed chunks, with and without state resets, with or without preset dictionary).
     The position lag and the decoder's different position origin are handled by the context renaming `ctxMap`
     (`Lemmas/LzmaCtxMap.lean`, through `rc_context_renaming`'s lemma `rcEncode_rename`), as is the different index order of
     `rc_bittree_rev4` in the decoder. -/
-theorem lzma2_roundtrip (p : Props) (hp : PropsOk p) (dictSize : Nat) (hd : dictSize ≤ 4294967295) (preset data : ByteArray)
+theorem lzma2_roundtrip (lim : ChunkLimits) (p : Props) (hp : PropsOk p) (dictSize : Nat) (hd : dictSize ≤ 4294967295)
+    (preset data : ByteArray) (trace : Array TraceRec) (res : EncResult)
+    (h : lzma2EncodeL lim p dictSize (preset ++ data) preset.size trace = .ok res) (outCap : Nat) (hcap : data.size < outCap) :
+    Lzma2.lzma2Decode dictSize res.out preset.toList outCap =
+      { ret := .streamEnd, out := data.toList, consumed := res.out.length } :=
+  LzmaExec.lzma2_exec_roundtripL lim p hp dictSize hd preset data trace res h outCap hcap
+
+/-- `lzma2_roundtrip` for the limits of xz 5.8.1 (`lzma2Encode` = `lzma2EncodeL ChunkLimits.std`, by `rfl`): the form the
+    end-to-end theorems (Props/C01EndToEnd*.lean) use. -/
+theorem lzma2_roundtrip_std (p : Props) (hp : PropsOk p) (dictSize : Nat) (hd : dictSize ≤ 4294967295) (preset data : ByteArray)
     (trace : Array TraceRec) (res : EncResult)
     (h : lzma2Encode p dictSize (preset ++ data) preset.size trace = .ok res) (outCap : Nat) (hcap : data.size < outCap) :
     Lzma2.lzma2Decode dictSize res.out preset.toList outCap =
       { ret := .streamEnd, out := data.toList, consumed := res.out.length } :=
   LzmaExec.lzma2_exec_roundtrip p hp dictSize hd preset data trace res h outCap hcap
 
+/-- The chunk-closing limits are encoder-side tuning: for all limits that are `ChunkLimits.Ok` (uncompressed target above a
+    maximal match and at most LZMA2_UNCOMPRESSED_MAX = 2^21; compressed limit leaving room for one more symbol + flush below
+    LZMA2_CHUNK_MAX = 2^16) the chunker ACCEPTS every valid stateless trace of every input, i.e. it never trips over its own
+    size checks (the assertions of `lzma2_header_lzma` / `lzma2_header_uncompressed`). -/
+theorem lzma2_chunker_total (lim : ChunkLimits) (hlim : lim.Ok) (p : Props) (d : Nat) (buf : ByteArray) (tr : Array TraceRec)
+    (h : LzmaExec.TraceOk d buf tr) : ∃ res, lzma2EncodeL lim p d buf 0 tr = .ok res :=
+  LzmaExec.lzma2EncodeL_total lim hlim p d buf tr h
+
 /-- The chunker's output is a valid LZMA2 stream in the sense of the chunk specification `LzmaExec.ChunkOk` (every LZMA
     chunk: header for the current flags and the true sizes + `rc_reset`, the operations of a valid description from the
     encoder's current state — fresh after a state reset —, `rc_flush`; every uncompressed chunk: header + raw bytes), the
     chunks cover exactly the data, then 0x00. -/
-theorem lzma2_model_chunks (p : Props) (dictSize : Nat) (buf : ByteArray) (base : Nat) (trace : Array TraceRec)
-    (res : EncResult) (hbase : base ≤ buf.size) (h : lzma2Encode p dictSize buf base trace = .ok res) :
+theorem lzma2_model_chunks (lim : ChunkLimits) (p : Props) (dictSize : Nat) (buf : ByteArray) (base : Nat)
+    (trace : Array TraceRec) (res : EncResult) (hbase : base ≤ buf.size)
+    (h : lzma2EncodeL lim p dictSize buf base trace = .ok res) :
     ∃ bytes CF, LzmaExec.Chunks p dictSize buf base (LzmaExec.cfg0 p base) bytes CF ∧ CF.off = buf.size - base ∧
       res.out = bytes ++ [0] :=
-  LzmaExec.lzma2Encode_sound p dictSize buf base trace res hbase h
+  LzmaExec.lzma2EncodeL_sound lim p dictSize buf base trace res hbase h
 
 /-- The executable LZMA2 decoder accepts EVERY stream that satisfies the chunk specification (not only the encoder's). -/
 theorem lzma2_decoder_model_roundtrip (p : Props) (hp : PropsOk p) (dictSize : Nat) (hd : dictSize ≤ 4294967295)
